@@ -1,7 +1,7 @@
 (* Properties/GenTie.v — the tie between the Rust source text and the model for the word-level
    helpers: Gen/Scalar.v is regenerated from /repo by tools_rs2v.py on every run; this file is
    re-checked against it.  Nothing else lives here. *)
-From RV.Model Require Import Base Word Bytes DivRecip DivSmall Redc.
+From RV.Model Require Import Base Word Limbs Bytes DivRecip DivSmall Redc.
 From RV.Gen Require Import Prim Scalar.
 From RV.Proofs Require Import PfGenScalar.
 
@@ -32,7 +32,20 @@ Theorem GenTie_source_equals_model :
   (forall d, 0 <= d < BB -> g_reciprocal_2_mg10 d = reciprocal_2_mg10 d) /\
   (forall u d v, 0 <= u < BB -> inW d -> inW v -> g_div_2x1_mg10 u d v = div_2x1_mg10 u d v) /\
   (forall u21 u0 d v, 0 <= u21 < BB -> inW u0 -> 0 <= d < BB -> inW v ->
-     g_div_3x2_mg10 u21 u0 d v = div_3x2_mg10 u21 u0 d v).
+     g_div_3x2_mg10 u21 u0 d v = div_3x2_mg10 u21 u0 d v) /\
+  (forall l0 a0 b0, inW l0 -> inW a0 -> inW b0 ->
+     g_addmul_1 [l0] [a0] [b0] = Val (addmul_1 [l0] [a0] [b0])) /\
+  (forall l0 l1 a0 a1 b0 b1, inW l0 -> inW l1 -> inW a0 -> inW a1 -> inW b0 -> inW b1 ->
+     g_addmul_2 [l0; l1] [a0; a1] [b0; b1] = Val (addmul_2 [l0; l1] [a0; a1] [b0; b1])) /\
+  (forall l0 l1 l2 a0 a1 a2 b0 b1 b2,
+     inW l0 -> inW l1 -> inW l2 -> inW a0 -> inW a1 -> inW a2 -> inW b0 -> inW b1 -> inW b2 ->
+     g_addmul_3 [l0; l1; l2] [a0; a1; a2] [b0; b1; b2]
+     = Val (addmul_3 [l0; l1; l2] [a0; a1; a2] [b0; b1; b2])) /\
+  (forall l0 l1 l2 l3 a0 a1 a2 a3 b0 b1 b2 b3,
+     inW l0 -> inW l1 -> inW l2 -> inW l3 -> inW a0 -> inW a1 -> inW a2 -> inW a3 ->
+     inW b0 -> inW b1 -> inW b2 -> inW b3 ->
+     g_addmul_4 [l0; l1; l2; l3] [a0; a1; a2; a3] [b0; b1; b2; b3]
+     = Val (addmul_4 [l0; l1; l2; l3] [a0; a1; a2; a3] [b0; b1; b2; b3])).
 Proof.
   exact
   (conj g_nlimbs_eq
@@ -59,7 +72,11 @@ Proof.
    (conj g_reciprocal_mg10_eq
    (conj g_reciprocal_2_mg10_eq
    (conj g_div_2x1_mg10_eq
-   g_div_3x2_mg10_eq)))))))))))))))))))))))).
+   (conj g_div_3x2_mg10_eq
+   (conj g_addmul_1_eq
+   (conj g_addmul_2_eq
+   (conj g_addmul_3_eq
+   g_addmul_4_eq)))))))))))))))))))))))))))).
 Qed.
 Print Assumptions GenTie_source_equals_model.
 
